@@ -11,7 +11,9 @@ RULE = (
     "SQLite FILE database in WAL mode; a second connection performs the external UPDATEs (committed at once) between "
     "the session's operations. Operations: attribute read, attribute set, expire(obj[, names]), expire_all, "
     "refresh(obj[, names]) (names incl. the primary key attribute; empty list and None), commit, rollback, a "
-    "populate_existing query, external update. Families: small-scope exhaustive 'pending? ; expiring operation ; "
+    "populate_existing query (full rows, or a from_statement() whose rows carry only some columns), expunge and add "
+    "(re-attach without SQL), external update. Families: expunge ; ... ; add ; commit/rollback/expire_all histories whose "
+    "last transaction emits no SQL; small-scope exhaustive 'pending? ; expiring operation ; "
     "external write? ; set another attribute? ; read' sequences for every expiring operation, and random histories of "
     "2-12 operations. Observation per operation = value read / 'database is locked', number of SELECTs, for every "
     "instance the dict value / pending flag (committed_state) / expired flag of every attribute and state.modified, and "
@@ -40,7 +42,8 @@ LEVEL_TEXT = (
     "Tie: pinned source + model/implementation correspondence on the complete attribute state."
 )
 LEVEL_NOTE = (
-    "partial: autoflush is off (refresh/populate_existing with autoflush are C47's subject); relationships, deferred "
+    "partial: autoflush is off (refresh/populate_existing with autoflush are C47's subject); merge(load=False), joined-table "
+    "inheritance (rows lacking columns are produced with a partial-column from_statement instead), relationships, deferred "
     "columns, refresh with_for_update, deleted rows, several sessions are not modelled; database isolation is SQLite WAL."
 )
 TECHNIQUE = "Coq proof (pointwise invariants over histories) + small-scope exhaustive and random history correspondence with an external writer connection"
